@@ -285,7 +285,7 @@ func c02Load(t *testing.T, run *Run, desc any) {
 			if o > 0 {
 				so.Hosts = []string{name + ".example"}
 			}
-			for i := 0; i < 200 && time.Now().Before(deadline); i++ {
+			for i := 0; i < 500 && time.Now().Before(deadline); i++ {
 				next := addr(b)
 				if i%2 == 1 {
 					next = addr(a)
